@@ -20,8 +20,8 @@ func TestRegressionPartialWrite(t *testing.T) {
 	}
 	defer os.RemoveAll(base)
 	cache := map[[32]byte]verdict{}
-	for i, via := range []string{"debounce", "cancel"} {
-		spec := faultSpec{Mode: "faults", KeyLen: 16, Stores: credx.Both, Prev: map[string]int{}, Op: opSpec{"add", "alice", 0}, Via: via,
+	for i, via := range []string{"debounce", "cancel", "debounce", "cancel"} {
+		spec := faultSpec{Mode: "faults", KeyLen: 16, Stores: credx.Both, Prev: map[string]int{}, Op: opSpec{"add", "alice", 0}, Via: via, Loc: []string{"plain", "plain", "symlink-rel", "symlink-abs"}[i],
 			Ks: []int{0, 1, 22, 43, 44}, Dir: filepath.Join(base, fmt.Sprint(i))}
 		spec.Out = filepath.Join(spec.Dir, "out.json")
 		os.MkdirAll(spec.Dir, 0o755)
@@ -42,11 +42,11 @@ func TestRegressionPartialWrite(t *testing.T) {
 					recFaults.KnownHit(listedSig(sigPartial))
 					continue
 				}
-				t.Errorf("SIG=C20/%s store \"{}\\n\", add(alice) acknowledged, save via %s limited to %d of %d bytes: store file is now %q: %s",
-					sigPartial, via, r.K, out.NewDocLen, clip(r.File, 80), v.descr)
+				t.Errorf("SIG=C20/%s store \"{}\\n\", add(alice) acknowledged, save via %s (store location %s) limited to %d of %d bytes: store file is now %q: %s",
+					sigPartial, via, spec.Loc, r.K, out.NewDocLen, clip(r.File, 80), v.descr)
 				continue
 			}
-			recFaults.Case(fmt.Sprintf("regression/%s/k%d", via, r.K), r.K > 0 && r.K < out.NewDocLen && !r.NoSave, "regression")
+			recFaults.Case(fmt.Sprintf("regression/%s/%s/k%d", via, spec.Loc, r.K), r.K > 0 && r.K < out.NewDocLen && !r.NoSave, "regression")
 		}
 	}
 }
